@@ -184,3 +184,58 @@ func vAgeNonNeg() int64 {
 	rt.Assume(a <= vRange)
 	return a
 }
+
+// VerifC13Lookup: a real entry (PutBytes) stored at a symbolic time, looked
+// up later through Get, GetBytes or GetFile at a symbolic time, then a due
+// Trim: an entry looked up within the last five days is still served by the
+// same call afterwards ("looking an entry up refreshes it").
+func VerifC13Lookup() {
+	vNow = vEpochs[rt.IntRange(0, rt.Param("EPOCHS", 1))]
+	fsys := vfs.New()
+	fsys.NowSec = vNow
+	c := vNewCache(fsys)
+	cur := vNow
+	c.now = func() time.Time { return time.Unix(cur, 0) }
+	id := vIDs[0]
+	data := []byte("payload")
+	ageStore := vAgeNonNeg()
+	ageLook := vAgeNonNeg()
+	rt.Assume(ageLook <= ageStore)
+	cur = vNow - ageStore
+	rt.Assert(c.PutBytes(id, data) == nil, "setup-put")
+	// PutBytes stamps the files with the model clock; give them the storage time
+	for p, n := range fsys.Nodes {
+		if strings.HasPrefix(p, vDir+"/") && !n.Dir {
+			n.Mtime = vNow - ageStore
+		}
+	}
+	api := rt.IntRange(0, 2)
+	lookup := func() bool {
+		switch api {
+		case 0:
+			_, err := c.Get(id)
+			return err == nil
+		case 1:
+			got, _, err := c.GetBytes(id)
+			return err == nil && string(got) == string(data)
+		default:
+			file, _, err := c.GetFile(id)
+			if err != nil {
+				return false
+			}
+			n := fsys.File(file)
+			return n != nil && string(n.Data) == string(data)
+		}
+	}
+	cur = vNow - ageLook
+	rt.Assert(lookup(), "lookup-before-trim-succeeds")
+	cur = vNow
+	rt.Assert(c.Trim() == nil, "trim-returns-no-error")
+	if ageLook <= 5*vDay {
+		rt.Reach("looked-up-within-five-days")
+		rt.Assert(lookup(), "entry-looked-up-within-five-days-still-served")
+	} else if ageLook > 5*vDay+vHour {
+		rt.Reach("stale-since-lookup")
+		rt.Assert(!lookup(), "entry-unused-for-longer-is-removed")
+	}
+}
